@@ -24,7 +24,8 @@ def profile(big=False, cat=False, exclude=False, family='2d'):
 precisions = st.lists(st.sampled_from([2, 4, 8]), min_size=1, max_size=3, unique=True)
 
 
-def build_mps(spec, wseed: int, w_prec, a_prec, per_channel=False, x=None, **kw):
+def build_mps(spec, wseed: int, w_prec, a_prec, per_channel=False, x=None, wrap_train=False,
+              **kw):
     """Returns (mps, x0).  The wrapper is built from a deep copy (conversion folds BN in place into
     the model it is given)."""
     import torch
@@ -34,6 +35,8 @@ def build_mps(spec, wseed: int, w_prec, a_prec, per_channel=False, x=None, **kw)
     if x is None:
         x = ng.make_input(spec, 0).abs().clamp(max=1.0)
     qinfo = get_default_qinfo(tuple(w_prec), tuple(a_prec))
+    if wrap_train:
+        net.train()        # a freshly built nn.Module is in training mode when it is wrapped
     mps = MPS(copy.deepcopy(net), input_example=x, qinfo=qinfo,
               w_search_type=MPSType.PER_CHANNEL if per_channel else MPSType.PER_LAYER, **kw)
     return mps, x
